@@ -37,8 +37,9 @@ extern "C"
         /// the reset is completed.
         void (*await_filter_reset)(const struct video_source_s*);
 
+        /// Signals the filter thread to stop once it has processed everything
+        /// this thread has written. The filter, in turn, stops the sink.
         void (*sig_stop_filter)(const struct video_source_s*);
-        void (*sig_stop_sink)(const struct video_source_s*);
     };
 
     /// @brief Initializes the video source controller.
@@ -60,8 +61,7 @@ extern "C"
       struct channel* to_sink,
       struct channel* to_filter,
       void (*await_filter_reset)(const struct video_source_s*),
-      void (*sig_stop_filter)(const struct video_source_s*),
-      void (*sig_stop_sink)(const struct video_source_s*));
+      void (*sig_stop_filter)(const struct video_source_s*));
 
     void video_source_destroy(struct video_source_s* self);
 
